@@ -21,6 +21,7 @@ def plan(tier, seed):
         specs.append({'part': 'random', 'env': {'TZ': z}, 'n': n, 'shard': ZONES.index(z)})
         specs.append({'part': 'transitions', 'env': {'TZ': z}, 'shard': ZONES.index(z), 'sweep': 180,
                       'step': 3 if tier == 'quick' else 1, 'timeout': 3000})
+    specs.append({'part': 'tzswitch', 'env': {'TZ': 'UTC'}, 'shard': 99, 'n': 60 if tier == 'quick' else 2000})
     return specs
 
 
@@ -253,10 +254,48 @@ def run_transitions(spec, acc, api):
         acc.sample({'zone': zone, 'transitions_1900_2100': 0}, limit=1)
 
 
+def run_tzswitch(spec, acc, api):
+    """A host may change the process time zone while it runs (os.environ['TZ'] + time.tzset()): ISO texts that were parsed under one
+    zone are parsed again under the next one and must give THAT zone's wall-clock reading of the instant; formatting and parsing a
+    local datetime round-trips in every zone of the sequence. Nothing computed under the previous zone may be remembered."""
+    import time
+    rnd = random.Random(spec['seed'] * 7919 + 157)
+    texts = ['2024-03-10T06:59:59.000+00:00', '2024-03-10T07:00:00.000+00:00', '2024-11-03T05:45:00.000+00:00', '2021-06-15T12:00:00.000+05:45', '2021-01-15T23:59:59.999-03:30',
+             '1999-12-31T23:59:59.999+00:00', '2020-02-29T00:00:00.000+13:45', '2024-07-01T12:00:00.000-09:30', '2010-10-10T10:10:10.010+10:30', '1970-01-01T00:00:00.000+00:00']
+    try:
+        for rep in range(spec['n']):
+            zone = rnd.choice(ZONES)
+            os.environ['TZ'] = zone
+            time.tzset()
+            zi = zoneinfo.ZoneInfo(zone)
+            acc.cover('zone_switches', zone)
+            for t in texts:
+                acc.case(('tzswitch', rep, zone, t), True)
+                want = DT.fromisoformat(t).astimezone(zi).replace(tzinfo=None)
+                got = call(api, 'datetimeISOParse', t)
+                acc.count('parses_after_zone_switch')
+                if not isinstance(got, DT) or got.replace(tzinfo=None) != want:
+                    acc.violation('parse-remembers-earlier-zone', f'after switching the process to {zone}: datetimeISOParse({t!r}) = {got!r}, local reading of that instant is {want!r}',
+                                  {'zone': zone, 'text': t})
+                    return
+            # and the property's own round trip for a local datetime of this zone
+            d = DT(rnd.randint(1971, 2090), rnd.randint(1, 12), rnd.randint(1, 28), rnd.randint(3, 23), rnd.randint(0, 59), rnd.randint(0, 59), rnd.randint(0, 999) * 1000)
+            check_datetime(d, acc, api, zi, zone, f'after a switch to {zone}')
+            texts.append(call(api, 'datetimeISOFormat', d))
+            if len(texts) > 40:
+                del texts[rnd.randrange(10, len(texts))]
+    finally:
+        os.environ['TZ'] = spec['env']['TZ']
+        time.tzset()
+
+
 def run_shard(spec, acc):
     api = _api()
     if os.environ.get('TZ') != spec['env']['TZ']:
         acc.note_inconclusive('TZ was not applied to the shard process')
+        return
+    if spec['part'] == 'tzswitch':
+        run_tzswitch(spec, acc, api)
         return
     if spec['part'] == 'random':
         run_random(spec, acc, api)
